@@ -56,8 +56,11 @@ def run(ctx):
             x = {"dtype": d, "shape": [k], "data": [ops.fhex(v) for v in ([-0.0, 0.0] + [2.0] * (k - 2))[:k]]}
             zero = rnd.choice(["0", "0.0", "ndx.asarray(np.int32(0))", "ndx.asarray(np.float32(0.0))", "False"])
             impl = rnd.choice([f"y_ = x + {zero}; out = [1.0 / y_, y_]", f"y_ = {zero} + x; out = [1.0 / y_, ndx.atan2(y_, y_ * 0 - 1)]", f"y_ = x * 1 + {zero}; out = 1.0 / y_"])
+            zk = "float" if "0.0" in zero else "int"
+        else:
+            zk = "none"
         cases.append({"id": f"NZ-{i}", "inputs": {"x": x}, "impl": impl, "oracle": None, "tol": [0, 0],
-                      "meta": {"func": "signed-zero-constants", "dtype": d, "dclass": "float"}, "lazy_subsets": [{"names": ["x"]}, {"names": []}]})
+                      "meta": {"func": "signed-zero-constants", "dtype": d, "dclass": "float", "added_zero": zk}, "lazy_subsets": [{"names": ["x"]}, {"names": []}]})
     with_ort = core.run_cases("harness.h_ops", cases, workers=14, per_case_timeout=180)
     no_ort = core.run_cases("harness.h_noort", cases, workers=14, per_case_timeout=180)
     # evaluate the models built without onnxruntime
